@@ -298,7 +298,7 @@ func execDraw(ops []shadow.Op) (string, string) {
 				// displayed content differs from what the previous Show left (chain of overlapping
 				// wide runes covered / uncovered further left): the cell has to be drawn
 				dispChanged := len(prev) == len(exp) && !reflect.DeepEqual(prev[i], exp[i])
-				if !touched[i] && !nb && !unlocked[i] && m.C[i].R != 0 && !dispChanged {
+				if !touched[i] && !nb && !unlocked[i] && !dispChanged {
 					return "unchanged-cell-drawn", fmt.Sprintf("%s: drawCell(%d,%d) although nothing changed there since the previous Show", what, p[0], p[1])
 				}
 			}
